@@ -52,7 +52,8 @@ register("C05", "proof",
          "contract: table cost == spec function (BFS optimum); exhaustive over (configuration, class id); known-findings protocol",
          "DESIGN.md 5 (C05), 6")
 
-E2E_NOTE = (" The sign-free pipeline is covered for all inputs by the contract chain C06 (class id) -> C17 (table entry) -> C16 (layer search sound and "
+E2E_NOTE = (" Each run also re-establishes the pipeline prerequisites (hv/prereq.py): the glue code of stabilizer_circuits verified against callee contracts as "
+            "uninterpreted terms (all n), the layer-search segment contracts (all inputs, n<=6) and purity of the pipeline functions. The sign-free pipeline is covered for all inputs by the contract chain C06 (class id) -> C17 (table entry) -> C16 (layer search sound and "
             "complete, gate word) with lemma K4; the top-level contract is additionally evaluated by the independent tableau oracle on completely "
             "enumerated domains for n<=3 (n<=4 thorough: all 2295 groups x all 16 sign vectors x 4 connectivities) and on every class with seeded "
             "members for n=5,6 (labelled BOUNDED in the evidence, not counted).")
@@ -108,10 +109,11 @@ register("C10", "proof", TOMO + "All 20 configurations, all 2^n+1 circuits, all 
          "native symbolic execution over exact linear forms + normal-form comparison with oracle pull-back", "DESIGN.md 5 (C10-C12)")
 
 register("C11", "proof", TOMO + "Marginalisation contract of CircuitResult.__init__ discharged on all keys of N<=5 bits x all ordered qubit subsets; subset tomography and "
-         "stabilizer measurement over the full 2^N outcome space for N=3..5, all ordered 2- and 3-subsets (some seeded), both key modes.",
+         "stabilizer measurement over the full 2^N outcome space for N=3..5, all ordered 2- and 3-subsets (some seeded), both key modes; key embedding for m=5,6 on ALL "
+         "ordered 5-lists of 6 qubits (thorough: all 5- and 6-lists of 7) plus structured lists up to N=8.",
          TRUST + " N<=5 (6 thorough); exact statistics; Q2/Q5/Q6 assumed.", "exhaustive marginalisation contract + native symbolic execution over linear forms", "DESIGN.md 5 (C10-C12)")
 
-register("C12", "proof", TOMO + "Every class of every configuration (one seeded signed member each; all classes for n<=5 in quick, 120 per 6-qubit configuration), keys must be "
+register("C12", "proof", TOMO + "Pipeline prerequisites (readout circuit exists and is correct for every valid stabilizer) are re-established each run. Every class of every configuration (one seeded signed member each; all classes for n<=5 in quick, 120 per 6-qubit configuration), keys must be "
          "exactly the unsigned elements of the given group.", TRUST + " Exact statistics; Q2/Q5/Q6 assumed; other members of a class via C03.",
          "native symbolic execution over exact linear forms + normal-form comparison with oracle pull-back", "DESIGN.md 5 (C10-C12)")
 
@@ -134,7 +136,7 @@ register("C15", "proof",
          "Verification conditions generated from the real Stabilizer.expand / is_qubit_entangled / is_equivalent_mod_phase / __eq__ (pyvc) over ALL R/S bit "
          "matrices for n=1..6, discharged by folding/ANF/z3, plus a spec-level recombination lemma (z3). Background lemma M1 lifts the definitional "
          "postconditions to the property sentence; because M1 is trusted, the sentence itself is cross-checked on ALL stabilizer groups n<=4 (5 thorough) x all "
-         "qubits and ALL pairs of groups n<=3 against canonical forms / weight-one elements from the oracle.",
+         "qubits and ALL pairs of groups n<=3 against canonical forms / weight-one elements from the oracle; purity (AST) and edited-object obligations guard against memoisation.",
          TRUST + " M1 trusted; pairs for n>=4 stratified (bounded).", "pyvc VCs from the real methods + z3; exhaustive group-level cross-check (GROUND)", "DESIGN.md 5 (C15)")
 
 register("C08", "proof",
@@ -150,7 +152,8 @@ register("C16", "proof",
          "the linearity identity Rs*row = check_LC-LHS(A(row)) by ANF normal form, the basis/filter bijection, the span construction, the row-loop body (returns iff all "
          "blocks invertible, returned blocks = A(row)), the gate-word synthesis (raises iff not invertible, word action = block) and check_LC itself; with null_space's "
          "contract from C18 a five-line lemma gives soundness (without validity precondition) and completeness. The top-level contract is cross-checked against brute "
-         "force over all 6^n layers on ALL (group or sub-list, graph) pairs for n<=3 and every 4-qubit class x all 64 graphs.",
+         "force over all 6^n layers on ALL (group or sub-list, graph) pairs for n<=3, every 4-qubit class x all 64 graphs, and ALL 6^5 members of 5-qubit classes "
+         "without local symmetry (where the search must find one specific layer).",
          TRUST + " 'Any n' is claimed for n<=6 (7) only; itertools.product contract assumed; M6 gate actions.",
          "pyvc segment VCs (ANF + z3) on the real AST + lemma; brute-force GROUND cross-check", "DESIGN.md 5 (C16)")
 
@@ -159,7 +162,8 @@ register("C06", "proof",
          "and the entangled flags (any other access raises) for the data of every LC orbit representative (878), returning the filed id - so the id is a function of "
          "LC-invariant data, independent of signs and generators. With the round trip on all 878 ids and the oracle's orbit count K = 2,5,18,93,760 a counting lemma gives "
          "the bijection orbit <-> id. Independent cross-check: every stabilizer group for n<=5 (75735 five-qubit groups; all 4922775 six-qubit groups in the thorough "
-         "tier, count-checked) and every graph state on 2..6 vertices is classified by the real classifier and compared with the oracle's orbit.",
+         "tier, count-checked) and every graph state on 2..6 vertices is classified by the real classifier and compared with the oracle's orbit. Purity (AST) and "
+         "edited-object obligations (systematic edits on every qubit of every class) guard against memoisation.",
          TRUST + " Quick tier n=6: first half of M5 (every stabilizer state is LC-equivalent to a graph state) is trusted; thorough replaces it by enumeration.",
          "representation-hiding frame run of the real code + counting lemma; exhaustive classification (GROUND) against LC-orbit oracle", "DESIGN.md 5 (C06)")
 
